@@ -308,6 +308,16 @@ type Op struct {
 	// ViaFile: use the file variants ToCSV(filename) / FromCSV(filename) on a temporary file instead of
 	// the Writer/Reader variants (same observable behaviour; not visible to the model)
 	ViaFile bool `json:"viafile,omitempty"`
+	// Alt: call the alias of the operation (filter: BooleanIndex instead of Filter; not visible to the model)
+	Alt bool `json:"alt,omitempty"`
+	// plot: Bar selects BarPlot(S1) over LinePlot(S1, S2); PathOK: the output path can be created;
+	// RenderOK: the chart library renders these numbers without error (measured by Prep, outside goframe)
+	Bar      bool `json:"bar,omitempty"`
+	PathOK   bool `json:"pathok,omitempty"`
+	RenderOK bool `json:"renderok,omitempty"`
+	// groupbyother: the dynamic type of the key (0 Series, 1 map[string]string, 2 func: accepted; 3 int, 4 nil,
+	// 5 []any, 6 *Series: rejected)
+	KeyKind int `json:"keykind,omitempty"`
 }
 
 type GroupObs struct {
@@ -328,6 +338,8 @@ type Val struct {
 	Floats []FloatKV  `json:"floats,omitempty"`
 	Groups []GroupObs `json:"groups,omitempty"`
 	Seen   [][]KV     `json:"seen,omitempty"`
+	Name   BStr       `json:"name,omitempty"`  // cells: the column name
+	Cells  []Cell     `json:"cells,omitempty"` // cells
 }
 type Out struct {
 	Status string `json:"status"` // ok err panic
